@@ -23,8 +23,16 @@ func z2(a, b int) string {
 }
 
 func c16date(s *Sink, a, b [3]int, class string) {
-	p := types.Date(civilDate(a[0], a[1], a[2]))
-	q := types.Date(civilDate(b[0], b[1], b[2]))
+	// a calendar date is carried by a time value of some zone and time of day (ToDate and ParseDate use the process zone,
+	// which can change between the two, a caller may convert its own time.Time): the verdict is about the calendar
+	// dates, so the carriers rotate through zones 25 hours apart and three times of day
+	c16d++
+	locs := []*time.Location{time.UTC, time.FixedZone("+14", 14*3600), time.FixedZone("-11", -11*3600), time.FixedZone("+0545", 5*3600+45*60)}
+	hours := []int{0, 12, 23}
+	la, lb := locs[c16d%4], locs[(c16d/4)%4]
+	ha, hb := hours[(c16d/16)%3], hours[(c16d/48)%3]
+	p := types.Date(time.Date(a[0], time.Month(a[1]), a[2], ha, 0, 0, 0, la))
+	q := types.Date(time.Date(b[0], time.Month(b[1]), b[2], hb, 0, 0, 0, lb))
 	bf, af, eq := p.Before(q), p.After(q), p.Equals(q)
 	s.Add(fmt.Sprintf("CDate %s %s %v %v %v", z3(a[0], a[1], a[2]), z3(b[0], b[1], b[2]), bf, af, eq),
 		map[string]any{"op": "date", "a": a, "b": b, "before": bf, "after": af, "equals": eq}, class, a != b)
@@ -38,7 +46,7 @@ func c16hm(s *Sink, a, b [2]int, class string) {
 }
 
 var c16locs = []*time.Location{time.UTC, time.FixedZone("+0545", 5*3600+45*60), time.FixedZone("-0930", -(9*3600 + 30*60)), time.FixedZone("+14", 14*3600)}
-var c16n int
+var c16n, c16d int
 
 func c16dt(s *Sink, d, t int64, class string) {
 	// the same two instants expressed in rotating Locations: the verdict is about instants, not wall clocks
